@@ -10,6 +10,7 @@ pub mod matrix;
 pub mod twohop;
 pub mod pack;
 pub mod life;
+pub mod mints;
 pub mod slots {
     include!(concat!(env!("OUT_DIR"), "/slots.rs"));
     pub fn of(name: &str) -> &'static [&'static str] {
